@@ -186,6 +186,99 @@ pub fn check(c: &Case, st: &mut Stats) -> CheckResult {
     Ok(())
 }
 
+/// Messages far beyond one hash block: lengths around 2^16, 2^17, 2^20 and 2^24 (any 16- / 24-bit length or
+/// offset counter inside the message path wraps here)
+pub const LONG_MSG_LENS: [u32; 7] = [65_535, 65_536, 65_537, 131_072, 1 << 20, (1 << 20) + 168, (1 << 24) + 1];
+
+/// What 16 threads get when their calls are the FIRST library calls of a fresh process, started together
+/// behind a barrier (lazily initialised statics, first-use races). One line per mismatch.
+pub fn cold_start_lines(seed: u64) -> Vec<String> {
+    use std::sync::{Arc, Barrier};
+    let n = 16usize;
+    // expectations first, from the reference only (no library call before the barrier)
+    let tuples: Vec<(usize, [u8; 32], Vec<u8>, [u8; 32], Mode)> = (0..n)
+        .map(|i| {
+            let s = crate::engine::hash_of(&(seed, "cold", i));
+            (i % 3, Seed32::Uniform(s).bytes(), gen::prg_bytes(s, "cold-msg", 1 + (s % 40) as usize), Seed32::Uniform(!s).bytes(), gen::mode_of((s >> 8) as u8))
+        })
+        .collect();
+    let expect: Vec<(Vec<u8>, Vec<u8>, Vec<u8>)> = tuples
+        .iter()
+        .map(|(set, xi, m, rnd, mode)| {
+            let p = libs()[*set].p();
+            let (pk, sk) = rf::keygen_internal(&p, xi);
+            let (sig, _) = rf::sign(&p, &sk, m, &[], *mode, rnd, 100_000).expect("reference sign");
+            (pk, sk, sig)
+        })
+        .collect();
+    let barrier = Arc::new(Barrier::new(n));
+    let handles: Vec<_> = (0..n)
+        .map(|i| {
+            let (b, t, e) = (barrier.clone(), tuples[i].clone(), expect[i].clone());
+            std::thread::spawn(move || -> Vec<String> {
+                let lib = libs()[t.0];
+                let mut out = Vec::new();
+                let _ = b.wait();
+                let r = crate::engine::guarded(|| {
+                    let (pk, sk) = lib.keygen_from_seed(&t.1);
+                    let mut rng = TestRng::replay(&t.3);
+                    let sig = sk.sign(&mut rng, &t.2, &[], t.4);
+                    let ok = sig.as_ref().map(|s| pk.verify(&t.2, s, &[], t.4)).unwrap_or(false);
+                    (pk.to_bytes(), sk.to_bytes(), sig, ok)
+                });
+                match r {
+                    Err(pi) => out.push(format!("thread {i} set {}: panic {}", lib.p().id, pi.key())),
+                    Ok((pk, sk, sig, ok)) => {
+                        if pk != e.0 || sk != e.1 {
+                            out.push(format!("thread {i} set {}: generated keys differ from FIPS 204", lib.p().id));
+                        }
+                        match sig {
+                            Ok(s) if s == e.2 => {}
+                            Ok(_) => out.push(format!("thread {i} set {}: signature differs from FIPS 204 Sign", lib.p().id)),
+                            Err(er) => out.push(format!("thread {i} set {}: signing failed: {er}", lib.p().id)),
+                        }
+                        if !ok {
+                            out.push(format!("thread {i} set {}: own signature does not verify", lib.p().id));
+                        }
+                    }
+                }
+                out
+            })
+        })
+        .collect();
+    handles.into_iter().flat_map(|h| h.join().unwrap_or_else(|_| vec!["thread panicked outside the guard".to_string()])).collect()
+}
+
+fn cold_start(ctx: &Ctx, rep: &mut Report) {
+    let sub = "cold_start_concurrent";
+    let Ok(exe) = std::env::current_exe() else {
+        rep.note(format!("{sub}: cannot locate own executable; skipped"));
+        return;
+    };
+    let runs = ctx.n(8, 64);
+    for r in 0..runs {
+        let seed = crate::engine::hash_of(&(ctx.seed, "cold-run", r));
+        match std::process::Command::new(&exe).args(["coldstart", &seed.to_string()]).output() {
+            Ok(o) if o.status.success() => {
+                let st = rep.stats(sub);
+                st.evals(16);
+                st.nontrivial_enumerated += 16;
+                let lines: Vec<String> = String::from_utf8_lossy(&o.stdout).lines().map(str::to_string).collect();
+                if let Some(l) = lines.first() {
+                    if !rep.violations.iter().any(|v| v.sub == sub) {
+                        let key: String = l.split(':').nth(1).unwrap_or("mismatch").trim().chars().take(40).collect();
+                        rep.violation(sub, Fail::new(format!("cold_start:{}", key.replace(' ', "_")), format!("first library calls of a fresh process, 16 threads released together: {} ({} mismatching line(s))", l, lines.len())), json!({"coldstart_seed": seed}));
+                    }
+                }
+            }
+            other => {
+                rep.note(format!("{sub}: probe process failed ({:?}); skipped", other.map(|o| o.status)));
+                return;
+            }
+        }
+    }
+}
+
 pub fn run(ctx: &Ctx, rep: &mut Report) {
     rep.assume(ASSUME_REF);
     rep.assume("private keys whose reference signing loop needs more than 400 iterations are discarded and counted (pathological inconsistent keys); C13 covers their no-panic side");
@@ -198,6 +291,20 @@ pub fn run(ctx: &Ctx, rep: &mut Report) {
         rep.stats("sample_in_ball_extreme_signatures").maximum(&format!("max_consecutive_rejections_set{}", e.set), i64::from(e.sib_max_run));
     }
     crate::engine::run_list(rep, "sample_in_ball_extreme_signatures", &ext, check);
+    // very long messages, every mode
+    let mut long: Vec<Case> = Vec::new();
+    for (li, len) in LONG_MSG_LENS.iter().enumerate() {
+        for mode in 0..4u8 {
+            let set = ((li + mode as usize) % 3) as u8;
+            if ctx.quick() && *len > (1 << 20) + 168 && mode % 2 == 1 {
+                continue;
+            }
+            let s = crate::engine::hash_of(&(ctx.seed, "c03-long", len, mode));
+            long.push(Case { set, sk: SkSpec::Generated(Seed32::Uniform(s % 3)), msg: BytesSpec { len: *len, constant: None, seed: s }, ctx: BytesSpec { len: (s % 4) as u32, constant: None, seed: s ^ 1 }, mode, rnd: Seed32::Uniform(s ^ 2), pre_draw: 1 + (s % 7) as u8 });
+        }
+    }
+    crate::engine::run_list(rep, "long_messages", &long, check);
+    cold_start(ctx, rep);
     crate::props::history::run(ctx, rep, 2500, 60000);
 }
 
@@ -205,5 +312,5 @@ pub fn replay(_ctx: &Ctx, sub: &str, case: &Value) -> Option<CheckResult> {
     if sub == "raw_bytes" {
         return crate::fuzzglue::replay_raw("C03", case);
     }
-    (sub == "generated" || sub == "sample_in_ball_extreme_signatures").then(|| check(&from_case::<Case>(case), &mut Stats::default()))
+    (sub == "generated" || sub == "sample_in_ball_extreme_signatures" || sub == "long_messages").then(|| check(&from_case::<Case>(case), &mut Stats::default()))
 }
